@@ -257,7 +257,24 @@ func metaCase(c *Ctx, fam *report.Family, f string, s *PkgSpec, in map[string]an
 		if m, _ := wire.UnH(ans[0]); m != string(body) {
 			disagree("archlinux .PKGINFO bytes", m, string(body))
 		}
-		find(ans[1])
+		if ans[1] == "violated value-differs:pkgver" {
+			// the recorded finding is one specific case: no epoch, a prerelease, and pkgver = version-pkgrel with the
+			// prerelease left out. Any other difference in pkgver is not that finding.
+			rel := 1
+			if n, err := strconv.Atoi(infoForModel.Release); err == nil {
+				rel = n
+			}
+			recorded := infoForModel.Epoch == "" && infoForModel.Prerelease != "" && first(pm.Multi["pkgver"]) == fmt.Sprintf("%s-%d", infoForModel.Version, rel)
+			if !recorded {
+				c.Rep.Find(report.Finding{Property: "C02", Family: fam.Name, Shape: "archlinux:value-differs:pkgver:not-the-recorded-prerelease-case",
+					What:  fmt.Sprintf("archlinux pkgver %q does not state what the configuration states (version %q prerelease %q release %q epoch %q)", first(pm.Multi["pkgver"]), infoForModel.Version, infoForModel.Prerelease, infoForModel.Release, infoForModel.Epoch),
+					Input: in2})
+			} else {
+				find(ans[1])
+			}
+		} else {
+			find(ans[1])
+		}
 	case "rpm":
 		host, _ := os.Hostname()
 		a, err := c.D.Ask(fmt.Sprintf("rpmtags %s %s", la, wire.H(host)))
